@@ -75,6 +75,9 @@ func tokenFresh(class string, salt int) string {
 		return hs(secrets["s1"], now.Add(4*time.Second), now.Add(time.Hour))
 	case "future_far":
 		return hs(secrets["s1"], now.Add(time.Hour), now.Add(2*time.Hour))
+	case "empty_key":
+		// well-formed, unexpired, signed with the EMPTY key: it verifies against "no secret" if that is ever used as a key
+		return hs("", now, now.Add(time.Hour))
 	case "wrongsig":
 		t := hs(secrets["s1"], now, now.Add(time.Hour))
 		// another signature of the right length: sign the same claims with a different key
